@@ -29,16 +29,20 @@ AttrPool == <<AT(a_score, "eq", <<53>>), AT(a_score, "eq", <<54>>), AT(a_score, 
               CI(fD, <<53>>), CI(fD, <<54>>), CI(fB, t_bar), CI(fC, t_bar), CI(fA, t_bar)>>
 RulePool == AttrPool \o <<LS(t_win), LS(t_lin), RC("contains_field", fB), RC("contains_field", fA), RC("is_sigma_rule", <<>>),
               RC("is_sigma_correlation_rule", <<>>), RC("tag", t_tag), RC("tag", t_tagx), RC("applied", t_ren),
-              RC("applied", t_nope), RC("applied", <<112,114,101>>), ST(t_k, t_v), ST(t_k, t_w)>>
+              RC("applied", t_nope), RC("applied", <<112,114,101>>), ST(t_k, t_v), ST(t_k, t_w),
+              \* the state variable z holds the empty string
+              ST(<<122>>, <<>>), ST(<<122>>, t_v), RC("applied", <<115,116,48>>)>>
 IC(t, all, s) == [t |-> t, all |-> all, s |-> s, k |-> <<>>, v |-> <<>>]
 ItemPool == <<IC("match_string", FALSE, t_foo), IC("match_string", TRUE, t_foo), IC("match_value", FALSE, t_bar),
               IC("match_value", TRUE, t_zz), IC("contains_wildcard", FALSE, <<>>), IC("contains_wildcard", TRUE, <<>>),
               IC("is_null", FALSE, <<>>), IC("is_null", TRUE, <<>>), IC("applied", FALSE, t_ren), IC("applied", FALSE, <<112,114,101>>), IC("applied", FALSE, <<111,110,108,121,49>>),
-              [IC("state", FALSE, <<>>) EXCEPT !.k = t_k, !.v = t_v], [IC("state", FALSE, <<>>) EXCEPT !.k = t_k, !.v = t_w]>>
+              [IC("state", FALSE, <<>>) EXCEPT !.k = t_k, !.v = t_v], [IC("state", FALSE, <<>>) EXCEPT !.k = t_k, !.v = t_w],
+              [IC("state", FALSE, <<>>) EXCEPT !.k = <<122>>, !.v = <<>>]>>
 FC(t, names, s) == [t |-> t, names |-> names, s |-> s, k |-> <<>>, v |-> <<>>]
 FieldPool == <<FC("include", <<fH>>, <<>>), FC("exclude", <<fG>>, <<>>), FC("include", <<fB>>, <<>>), FC("include", <<fC, fD>>, <<>>), FC("exclude", <<fB>>, <<>>), FC("include", <<fA>>, <<>>),
                FC("exclude", <<fE, fC>>, <<>>), FC("applied", <<>>, t_ren),
-               [FC("state", <<>>, <<>>) EXCEPT !.k = t_k, !.v = t_v], [FC("state", <<>>, <<>>) EXCEPT !.k = t_k, !.v = t_w]>>
+               [FC("state", <<>>, <<>>) EXCEPT !.k = t_k, !.v = t_v], [FC("state", <<>>, <<>>) EXCEPT !.k = t_k, !.v = t_w],
+               [FC("state", <<>>, <<>>) EXCEPT !.k = <<122>>, !.v = <<>>]>>
 
 Exprs1 == {EId(1), ENot(EId(1))}
 Exprs2 == {EBin("and", EId(1), EId(2)), EBin("or", EId(1), EId(2)), EBin("and", EId(1), ENot(EId(2))),
